@@ -65,7 +65,7 @@ type c19Edit struct {
 // start of the same content does (decided by the worker, not by this file)
 var c19Class = map[string]string{
 	"valid": "load", "valid-interp": "load", "valid-ws": "load", "recreate": "load", "atomic": "load", "trunc": "load",
-	"parse": "fail", "delete": "fail", "garbage": "fail",
+	"parse": "fail", "delete": "fail", "garbage": "fail", "unreadable": "fail",
 	"semantic": "cold", "ws-conflict": "cold", "live-conflict": "cold", "empty": "cold", "comment": "cold", "noversion": "cold",
 }
 
@@ -127,6 +127,9 @@ func c19MkEdit(kind string, k int, rng *rand.Rand) c19Edit {
 	switch kind {
 	case "delete":
 		e.Style = "delete"
+		return e
+	case "unreadable":
+		e.Style = "mkdir" // a directory in the file's place: it exists but cannot be read
 		return e
 	case "recreate":
 		e.Style = "recreate"
@@ -850,7 +853,13 @@ func c19RunProc(bin, dir string, id int, initial string, edits []c19Edit) c19Pro
 	for i := range edits {
 		e := &edits[i]
 		res.Edits++
+		if fi, err := os.Stat(file); err == nil && fi.IsDir() {
+			os.Remove(file)
+		}
 		switch e.Style {
+		case "mkdir":
+			os.Remove(file)
+			os.Mkdir(file, 0o755)
 		case "delete":
 			os.Remove(file)
 		case "atomic":
@@ -978,7 +987,7 @@ func checkC19(tier string) {
 	seqs := c19EnumSeqs(cliAlpha, enumLen)
 	nEnum := len(seqs)
 	// longer sampled sequences over the full alphabet
-	fullAlpha := []string{"valid", "valid-interp", "valid-ws", "parse", "garbage", "semantic", "ws-conflict", "live-conflict", "empty", "comment", "noversion", "delete", "recreate", "atomic"}
+	fullAlpha := []string{"valid", "valid-interp", "valid-ws", "parse", "garbage", "unreadable", "semantic", "ws-conflict", "live-conflict", "empty", "comment", "noversion", "delete", "recreate", "atomic"}
 	for i, n := 0, r.Pick(60, 600); i < n; i++ {
 		l := enumLen + 1 + rng.Intn(4)
 		s := make([]string, l)
@@ -1005,7 +1014,7 @@ func checkC19(tier string) {
 	}
 	nReloadJobs := len(devJobs)
 	// ---- 2. the manager's own fsnotify watcher, real file writes ----
-	watchAlpha := []string{"valid", "valid-interp", "parse", "semantic", "empty", "delete", "recreate", "atomic", "trunc", "ws-conflict", "noversion", "garbage", "comment"}
+	watchAlpha := []string{"valid", "valid-interp", "parse", "semantic", "empty", "delete", "unreadable", "recreate", "atomic", "trunc", "ws-conflict", "noversion", "garbage", "comment"}
 	for i, n := 0, r.Pick(112, 900); i < n; i++ {
 		l := 2 + rng.Intn(4)
 		s := make([]string, l)
@@ -1150,7 +1159,7 @@ func checkC19(tier string) {
 	for _, s := range lseqs {
 		mkLib("direct", s)
 	}
-	lwAlpha := []string{"valid", "parse", "semantic", "empty", "delete", "recreate", "atomic", "garbage", "reject"}
+	lwAlpha := []string{"valid", "parse", "semantic", "empty", "delete", "unreadable", "recreate", "atomic", "garbage", "reject"}
 	for i, n := 0, r.Pick(240, 2400); i < n; i++ {
 		l := 2 + rng.Intn(5)
 		s := make([]string, l)
@@ -1252,7 +1261,7 @@ func checkC19(tier string) {
 		fmt.Println("BUILD-FAILED: cmd/glyph")
 		os.Exit(2)
 	}
-	procAlpha := []string{"valid", "valid-interp", "parse", "semantic", "empty", "delete", "recreate", "atomic", "ws-conflict", "live-conflict", "garbage"}
+	procAlpha := []string{"valid", "valid-interp", "parse", "semantic", "empty", "delete", "unreadable", "recreate", "atomic", "ws-conflict", "live-conflict", "garbage"}
 	nProc := r.Pick(40, 320)
 	type pj struct {
 		id    int
